@@ -374,7 +374,7 @@ def match_tables(F, R):
                          'filter level %s vs topic level %r at index %d (strings equal: %s): implementation %s, MQTT 4.7 %s' % (fk, topic, index, same, got, want))
     R.counts['C18.match-table:str-impl cases'] = n
     # --- filter-vs-filter impl
-    fb = F.one(r'^topic::match_level_impl$')
+    fb = F.body('topic::match_level_impl') or F.one(r'^<topic::TopicFilterLevel as topic::MatchLevel>::match_level$')   # (the helper may be folded into the impl it served)
     fp = [p for p in SymEx(fb, F, call_model=atom_model).run() if p.end[0] == 'return']
     R.ob('C18.match-table', 'filter-impl|paths', len(fp) >= 5, '%d paths' % len(fp))
 
@@ -955,7 +955,7 @@ def display_table(F, R):
 
 
 def param_use(F, R):
-    b = F.one(r'^topic::match_level_impl$')
+    b = F.body('topic::match_level_impl') or F.one(r'^<topic::TopicFilterLevel as topic::MatchLevel>::match_level$')
     for argn, name in ((1, 'subset_level'), (2, 'superset_level'), (3, 'index')):
         used = False
         for bi, j, s in b.stmts():
